@@ -831,7 +831,13 @@ cdef class QobjEvo:
         coeffs = []
         for element in coeff_elements:
             for i, qobj in enumerate(qobjs):
-                if element.qobj(0) == qobj:
+                # Only identical operators can share a coefficient: `==` on
+                # `Qobj` has an absolute tolerance, under which small but
+                # different operators are equal.
+                if (
+                    element.qobj(0)._dims == qobj._dims
+                    and _data.isequal(element.qobj(0).data, qobj.data, 0., 0.)
+                ):
                     coeffs[i] = coeffs[i] + element._coefficient
                     break
             else:
